@@ -237,7 +237,8 @@ class FnVerifier(ExprMixin, StmtMixin, CallMixin):
         outs = self.block(self.body_stmts(), [st])
         for o in outs:
             if o.kind == 'next':
-                self.exits.append(Outcome('return', o.st, SV(NONE, NONEV), line=getattr(self.fn, 'end_lineno', 0)))
+                # falling off the end: `return None` for a function; for a statement region, control continues after the region
+                self.exits.append(Outcome('fall' if self.c.region is not None else 'return', o.st, SV(NONE, NONEV), line=getattr(self.fn, 'end_lineno', 0)))
             elif o.kind == 'return':
                 self.exits.append(o)
             else:
@@ -252,7 +253,13 @@ class FnVerifier(ExprMixin, StmtMixin, CallMixin):
         nret = 0
         for o in self.exits:
             st = o.st
-            if o.kind == 'return':
+            if o.kind == 'fall':
+                for i, e in enumerate(self.c.ghost.get('ensures_fall', c.ensures)):
+                    self.oblige_spec('post.fall#%d.e%d' % (nret, i), e, st, node=None, kind='post', old=self.entry, out=st.out)
+                if c.canary:
+                    self.oblige('canary.fall#%d' % nret, st, z3.BoolVal(False), kind='canary', expect_sat=True)
+                nret += 1
+            elif o.kind == 'return':
                 k = nret
                 nret += 1
                 res = self.coerce(o.val, c.returns, st) if o.val is not None else SV(NONE, NONEV)
